@@ -14,7 +14,8 @@ func init() {
 			"a replayed genuine flight on the SAME phantom while the registration is valid is an accept (tags are static by design)",
 		},
 		Stages: []Stage{
-			{Name: "flights", Dir: "cmd/application", Pkg: ".", Run: "^TestVerifC02$", Drivers: []string{"app"}, Exports: []string{"lib"}, HangIsViol: true, TimeoutQ: 15 * time.Minute, TimeoutT: 90 * time.Minute},
+			{Name: "flights", Dir: "cmd/application", Pkg: ".", Run: "^TestVerifC02$", Drivers: []string{"app"}, Exports: []string{"lib"}, Files: []string{"_c08_"}, HangIsViol: true, TimeoutQ: 15 * time.Minute, TimeoutT: 90 * time.Minute},
+			{Name: "midclass", Dir: "cmd/application", Pkg: ".", Run: "^TestVerifC02MidClassification$", Drivers: []string{"app"}, Exports: []string{"lib"}, Files: []string{"_c08_"}, HangIsViol: true, TimeoutQ: 10 * time.Minute, TimeoutT: 30 * time.Minute},
 		},
 	})
 }
